@@ -63,7 +63,7 @@ func replayViolation(prog *Program, spec *PropSpec, v *Violation, skipNative boo
 	dir := filepath.Join(verifDir, "replays", spec.ID, fmt.Sprintf("%x", h[:6]))
 	os.MkdirAll(dir, 0o755)
 	rf := replayFile{Property: spec.ID, Entry: v.Entry, Label: v.Label, Kind: v.Kind, Detail: v.Detail, Pkgs: spec.Pkgs,
-		Vector: vectorOf(v), Decs: v.Decs, Inputs: v.Inputs, Trace: v.Trace, Notes: v.Notes, Tier: curTier(), Arrival: arrivalSiteList()}
+		Vector: vectorOf(v), Decs: v.Decs, Inputs: v.Inputs, Trace: v.Trace, Notes: v.Notes, Tier: curTier(), Arrival: v.Arrival}
 	status := doReplay(prog, spec, &rf, dir, skipNative)
 	rf.Status = status
 	b, _ := json.MarshalIndent(rf, "", " ")
@@ -72,6 +72,8 @@ func replayViolation(prog *Program, spec *PropSpec, v *Violation, skipNative boo
 }
 
 func doReplay(prog *Program, spec *PropSpec, rf *replayFile, dir string, skipNative bool) string {
+	// exactly the sites that were in force when the counterexample was found
+	arrivalSites.Range(func(k, _ interface{}) bool { arrivalSites.Delete(k); return true })
 	for _, site := range rf.Arrival {
 		arrivalSites.Store(site, true)
 	}
